@@ -546,6 +546,7 @@ WHAT = {
     "stmt-ref": "linter verdict differs from the documented scopes of the statement",
     "op-ref": "linter verdict differs from the assignment type table",
     "var-type": "type of the variable differs between linter and simulator",
+    "var-interp-regen": "the simulator's variable dispatch regenerated by the translator (Gen/InterpVars.v, Model/InterpVars.v) differs from the real simulator",
     "var-model": "lookup model (Model/LintTables.v) differs from the real linter",
     "func-model": "GetFunction model differs from the real linter",
     "stmt-model": "statement guard model differs from the real linter",
